@@ -90,10 +90,11 @@ Definition u_bind_result (a : val) : val :=
   end.
 
 (* ---- framing ---- *)
-(* [flavour; auth; sign; sig_len; provider type; seq; ctx; opnum; stub; vt|None] -> [wire; [header; body; trailer; sign] | None] *)
-Definition u_framing (a : val) : val :=
-  match a with
-  | VL [VI _flavour; VI auth; VI sign; VI sig_len; VI ptype; VI seq; VI ctx; VI opnum; VB stub; vt] =>
+(* [flavour; auth; sign; sig_len; provider type; seq0; [[ctx; opnum; stub; vt|None] ...]] : consecutive requests on ONE client
+   -> per request [wire; [header; body; trailer; sign] | None] or the error *)
+Definition one_request (auth sign sig_len ptype seq : Z) (r : val) : val :=
+  match r with
+  | VL [VI ctx; VI opnum; VB stub; vt] =>
     match opt_bytes_of_val vt with
     | Some vt' =>
       let pv := if auth =? 0 then None else Some {| pv_type := ptype; pv_sig_len := sig_len |} in
@@ -106,6 +107,20 @@ Definition u_framing (a : val) : val :=
       end
     | None => bad
     end
+  | _ => bad
+  end.
+Fixpoint requests (auth sign sig_len ptype seq : Z) (l : list val) : list val :=
+  match l with
+  | [] => []
+  | r :: rest =>
+    let v := one_request auth sign sig_len ptype seq r in
+    (* the context's sequence number advances only when wrap was actually called *)
+    let seq' := match v with VL [_; VL _] => seq + 1 | _ => seq end in
+    v :: requests auth sign sig_len ptype seq' rest
+  end.
+Definition u_framing (a : val) : val :=
+  match a with
+  | VL [VI _flavour; VI auth; VI sign; VI sig_len; VI ptype; VI seq; VL rs] => VL (requests auth sign sig_len ptype seq rs)
   | _ => bad
   end.
 (* [stub; pad_length|None] -> stripped stub *)
